@@ -2,6 +2,11 @@
 
 package parser
 
+import (
+	parseError "gen/errors"
+	"gen/token"
+)
+
 // Harness for C05 (and a deeper oracle for C02): the real Parse in lock-step with a table-
 // driven LR machine running on the REFERENCE canonical LR(1) tables built by /verif
 // (verifRefAction etc., resolved by "shift first, then the earliest production").
@@ -14,6 +19,8 @@ type verifRefRunOut struct {
 	accepted   bool
 	reductions []int
 	gaveUp     bool
+	errPos     int // index of the token at which the reference machine found no action
+	errState   int
 }
 
 func verifRefRun(kinds []int, budget int) verifRefRunOut {
@@ -33,6 +40,7 @@ func verifRefRun(kinds []int, budget int) verifRefRunOut {
 		a := verifRefAction[states[len(states)-1]][col]
 		switch {
 		case a == 0:
+			out.errPos, out.errState = pos, states[len(states)-1]
 			return out
 		case a == 1:
 			out.accepted = true
@@ -68,6 +76,38 @@ func VerifC05Lockstep() {
 	}
 	if err != nil {
 		verifAssert(len(verifTrace) <= len(ref.reductions), "no reduction beyond those of the reference machine before the error")
+	}
+	if err != nil && !ref.accepted && verifRefErrCol < 0 {
+		// error report: same offending token and the expected set of the reference state
+		pe, ok := err.(*parseError.Error)
+		verifAssert(ok && pe != nil, "Parse fails with a parse error value")
+		if ok && pe != nil {
+			if ref.errPos < n {
+				verifAssert(pe.ErrorToken == sc.toks[ref.errPos], "same offending token as the reference machine")
+			} else {
+				verifAssert(pe.ErrorToken == sc.eof, "same offending token (end of input) as the reference machine")
+			}
+			want := 0
+			for t := 0; t <= verifRefNT; t++ {
+				name := token.TokMap.Id(token.EOF)
+				if t < verifRefNT {
+					name = verifTermNames[t]
+				}
+				in := false
+				for _, s := range pe.ExpectedTokens {
+					if s == name {
+						in = true
+					}
+				}
+				exp := verifRefAction[ref.errState][t] != 0
+				verifAssert(in == exp, "same expected tokens as the reference state")
+				if exp {
+					want++
+				}
+			}
+			verifAssert(len(pe.ExpectedTokens) == want, "expected list has no duplicates")
+		}
+		verifCover("rejected")
 	}
 	if ref.accepted {
 		verifCover("accepted")
